@@ -104,8 +104,9 @@ static void gen_trigger(int trig, int full) {
                     /* folded field value (obs-fold): the coding name arrives on the continuation line */
                     else if (v == 3) snprintf(L[nl++].text, 96, "%s:%s\r\n %s%s\r\n", nm2, OWS[o1], tok, OWS[o2]); else snprintf(L[nl++].text, 96, "%s:%sgzip,\r\n\t%s%s\r\n", nm2, OWS[o1], tok, OWS[o2]);
                     casing(nm2, "Content-Length", nc); snprintf(L[nl++].text, 96, "%s:%s3%s\r\n", nm2, OWS[o2], OWS[o1]); body = CHUNKBODY; CT.must_set = HTP_REQUEST_SMUGGLING; CT.expect_chunked = 1; break;
-                case T_CL_TWICE_SAME: casing(nm2, "Content-Length", nc); snprintf(L[nl++].text, 96, "%s:%s3%s\r\n", nm2, OWS[o1], OWS[o2]); snprintf(L[nl++].text, 96, "%s:%s3%s\r\n", nm2, OWS[o2], OWS[o1]); CT.must_set = HTP_REQUEST_SMUGGLING; break;
-                case T_CL_TWICE_DIFF: casing(nm2, "Content-Length", nc); snprintf(L[nl++].text, 96, "%s:%s3%s\r\n", nm2, OWS[o1], OWS[o2]); snprintf(L[nl++].text, 96, "%s:%s4%s\r\n", nm2, OWS[o2], OWS[o1]); CT.must_set = HTP_REQUEST_SMUGGLING; break;
+                /* the second occurrence is spelled in the NEXT casing (lower / UPPER / Mixed): the field is the same field */
+                case T_CL_TWICE_SAME: { char nm3[40]; casing(nm2, "Content-Length", nc); casing(nm3, "Content-Length", (nc + 1) % 3); snprintf(L[nl++].text, 96, "%s:%s3%s\r\n", nm2, OWS[o1], OWS[o2]); snprintf(L[nl++].text, 96, "%s:%s3%s\r\n", nm3, OWS[o2], OWS[o1]); CT.must_set = HTP_REQUEST_SMUGGLING; break; }
+                case T_CL_TWICE_DIFF: { char nm3[40]; casing(nm2, "Content-Length", nc); casing(nm3, "Content-Length", (nc + 1) % 3); snprintf(L[nl++].text, 96, "%s:%s3%s\r\n", nm2, OWS[o1], OWS[o2]); snprintf(L[nl++].text, 96, "%s:%s4%s\r\n", nm3, OWS[o2], OWS[o1]); CT.must_set = HTP_REQUEST_SMUGGLING; break; }
                 case T_CL_FOLDED: casing(nm2, "Content-Length", nc); snprintf(L[nl++].text, 96, "%s:%s\r\n%s3%s\r\n", nm2, OWS[o1], o2 == 2 ? "\t" : " ", OWS[o2]); CT.must_set = HTP_REQUEST_SMUGGLING; break;
                 case T_TE_HTTP10: reqline = "POST /p HTTP/1.0\r\n"; casing(nm2, "Transfer-Encoding", nc); snprintf(L[nl++].text, 96, "%s:%s%s%s\r\n", nm2, OWS[o1], tok, OWS[o2]); body = CHUNKBODY; CT.must_set = HTP_REQUEST_SMUGGLING; CT.expect_chunked = 1; break;
                 case T_CL_UNPARSEABLE: { static const char *const BAD[] = { "x", "", "99999999999999999999", "abc" }; casing(nm2, "Content-Length", nc); snprintf(L[nl++].text, 96, "%s:%s%s%s\r\n", nm2, OWS[o1], BAD[v], OWS[o2]); body = ""; CT.must_set = HTP_REQUEST_INVALID; break; }
